@@ -186,7 +186,8 @@ class Recorder:
         self.sched.update(('|'.join(map(str, parts)) + '\n').encode())
 
     def state(self, text):
-        self.states.add(int.from_bytes(hashlib.sha256(text.encode()).digest()[:8], 'big'))
+        if len(self.states) < 48:   # bounded per run: thorough batches stay within memory
+            self.states.add(int.from_bytes(hashlib.sha256(text.encode()).digest()[:8], 'big'))
 
     def check(self, oracle, cond, detail=''):
         """Evaluate one oracle clause; ``detail`` may be a callable."""
